@@ -9,6 +9,7 @@
      and arity/keyword misuse => TypeError, never a panic, never silent dropping. Called from Python source (module function,
      through an instance, through the class with an explicit instance) and from Go through py.Call.
 """
+import re
 import itertools, json
 import common
 from common import rng, run_vrun, oracle_exec, short
@@ -907,6 +908,32 @@ def run(tier, rep):
             # accepted, ran, and did something else than binding every argument
             rep.violation(base + '|%s' % ('escaped:%s' % g.get('exc') if g.get('exc') else 'wrong-binding'), w)
         # accepted and bound correctly beyond 255: more than 3.4 promises, but nothing is dropped or misdelivered
+
+    # ---- receiver of module-level Go callables when several contexts are alive (direct mode gorecv) ------------
+    import subprocess, shutil, os as _os
+    rd = common.scratch_dir('vrun-gorecv-')
+    try:
+        outp = _os.path.join(rd, 'out.json')
+        try:
+            subprocess.run([common.build(), '-mode', 'gorecv', '-out', outp], stdout=subprocess.DEVNULL, stderr=subprocess.DEVNULL, env=common.go_env(), timeout=300, cwd=rd)
+            ro = json.load(open(outp))
+        except Exception as e_:
+            ro = {'error': repr(e_)}
+    finally:
+        shutil.rmtree(rd, ignore_errors=True)
+    if not ro.get('receiver_observations'):
+        rep.inconc('gorecv probe: %s' % short(ro, 300))
+    else:
+        rep.evaluations += ro['receiver_observations']
+        extra['go_receiver_observations_with_three_live_contexts'] = ro['receiver_observations']
+        nontriv.add(('gorecv', ro['orders']))
+        seen_ = set()
+        for v in ro.get('violations') or []:
+            what = re.sub(r'\d+', 'N', v['what'])[:110]
+            if what in seen_:
+                continue
+            seen_.add(what)
+            rep.violation('C04|go|several-live-contexts|%s' % what, {'mode': 'gorecv', 'order of context use': v['order'], 'what': v['what']})
 
     # ---- (ii) embedding boundary ------------------------------------------------------------------
     gcases, gexp = build_go_programs(tier, r)
